@@ -298,24 +298,26 @@ def main():
                 return 2
         else:
             open(f, "w").write("C replay\n" + rp.get("case", "") + "E\n")
-        files.append(("replay", f))
+        files.append(("replay", f, suite))
     else:
         for i, c in enumerate(sorted(glob.glob(os.path.join(V, "corpus", pid, "*.prog")))):
             f = os.path.join(rundir, "corpus%d.txt" % i)
             rc, out = sh([hexe, "-suite", suite, "-replay", c, "-out", f], env=GOENV, timeout=600)
             if rc == 0:
-                files.append(("corpus:" + os.path.basename(c), f))
+                files.append(("corpus:" + os.path.basename(c), f, suite))
         n = cfg[tier]["n"]
         shards = cfg[tier].get("shards", 1)
         procs = []
-        for s in range(shards):
-            f = os.path.join(rundir, "cases%d.txt" % s)
-            st = os.path.join(rundir, "stats%d.json" % s)
-            extra = cfg[tier].get("args", [])
-            procs.append((s, f, st, subprocess.Popen(
-                [hexe, "-suite", suite, "-seed", str(seed * 1000 + s), "-n", str(n), "-out", f, "-stats", st] + extra,
-                env=GOENV, stdout=subprocess.PIPE, stderr=subprocess.STDOUT, text=True)))
-        for s, f, st, p in procs:
+        runs = [(suite, suite, 1.0)] + [tuple(x) for x in cfg.get("extra_runs", [])]   # (generator, model suite, share of n)
+        for ri, (gen_suite, model_suite, share) in enumerate(runs):
+            for s in range(shards):
+                f = os.path.join(rundir, "cases%d_%d.txt" % (ri, s))
+                st = os.path.join(rundir, "stats%d_%d.json" % (ri, s))
+                extra = cfg[tier].get("args", [])
+                procs.append((ri * 100 + s, f, st, model_suite, subprocess.Popen(
+                    [hexe, "-suite", gen_suite, "-seed", str(seed * 1000 + ri * 100 + s), "-n", str(max(1, int(n * share))), "-out", f, "-stats", st] + extra,
+                    env=GOENV, stdout=subprocess.PIPE, stderr=subprocess.STDOUT, text=True)))
+        for s, f, st, model_suite, p in procs:
             out, _ = p.communicate(timeout=cfg[tier].get("timeout", 3000))
             if p.returncode != 0:
                 # the implementation crashed outside recover(): that is an observation
@@ -323,7 +325,7 @@ def main():
                               "what": "harness process died", "output": out[-4000:]})
                 notes.append("harness shard %d died" % s)
             if os.path.exists(f):
-                files.append(("gen:%d" % (seed * 1000 + s), f))
+                files.append(("gen:%d" % (seed * 1000 + s), f, model_suite))
 
     evaluations = 0
     ops = 0
@@ -333,18 +335,18 @@ def main():
     samples = []
     dist = {}
     sample_ok, sample_n = True, 0
-    for origin, f in files:
+    for origin, f, model_suite in files:
         cases = parse_cases(f)
-        rc, res, raw = run_driver(suite, f)
+        rc, res, raw = run_driver(model_suite, f)
         if rc != 0:
             print("driver failed:\n" + raw[-2000:])
             return 2
         if origin.startswith("gen:") and not samples:
-            ok_s, sample_n, slog = coq_sample(suite, cases, res, rundir)
+            ok_s, sample_n, slog = coq_sample(model_suite, cases, res, rundir)
             if not ok_s:
                 sample_ok = False
                 notes.append("in-Coq evaluation disagrees with extracted run: " + slog)
-        st = f.replace("cases", "stats").replace(".txt", ".json")
+        st = os.path.join(os.path.dirname(f), os.path.basename(f).replace("cases", "stats").replace(".txt", ".json"))
         if os.path.exists(st):
             for k, v in json.load(open(st)).get("dist", {}).items():
                 dist[k] = dist.get(k, 0) + v
